@@ -23,7 +23,7 @@ func c06rules(c *Ctx, add func(wireSample), docs map[string]any) {
 	if !c.Thorough() {
 		var keep []ruleCase
 		for i, rc := range cat {
-			if !strings.HasPrefix(rc.ID, "rules/numeric-") || (i+int(c.Seed))%3 == 0 {
+			if !strings.HasPrefix(rc.ID, "rules/numeric-") || (i+int(c.Seed))%6 == 0 {
 				keep = append(keep, rc)
 			}
 		}
@@ -52,7 +52,7 @@ func c06rules(c *Ctx, add func(wireSample), docs map[string]any) {
 		return
 	}
 	reqJSON, _ := spec.Request([]*spec.File{u.f}, nil, "format=json")
-	res := c.TB.Run("openapiv3", reqJSON, plugin.RunOpt{})
+	res := lab.RunDecoy(c.TB, "openapiv3", reqJSON, plugin.RunOpt{})
 	c.R.Eval(1)
 	if !res.OK() {
 		c.R.Violate("oasjson/rules/all", "no-document", res.Crash+res.Error, nil)
